@@ -153,6 +153,8 @@ def run(ctx, rep):
     check_as_image(prog, rep, DATA)
     check_check_n(prog, rep)
     check_writers(prog, rep, DATA, sps)
+    from rules import axis
+    axis.run_for(prog, rep, 'R10.8', ['src/framebuffer.rs'], 'framebuffer bytes are addressed as row * bytes-per-row + column')
     # W10: the compile-time size guard really stops the build (compile_fail witnesses with building twins)
     import witness
     witness.check(rep, "W10", ["W10TooSmall", "W10Exact", "W10Oversized", "W10SubByteTooSmall", "W10SubByteExact"])
